@@ -28,8 +28,9 @@ class Abort(BaseException):
 
 
 class Plan:
-    def __init__(self, fail_oids=(), abort_at=None, on_event=None):
+    def __init__(self, fail_oids=(), abort_at=None, on_event=None, enoent=False):
         self.fail_oids = set(fail_oids)
+        self.enoent = enoent   # the injected failure is a FileNotFoundError (e.g. the remote directory vanished)
         self.abort_at = abort_at
         self.on_event = on_event
         self.events = []  # (kind, oid, outcome)
@@ -63,6 +64,8 @@ class FaultFS(LocalFileSystem):
             plan.fired += 1
             if plan.on_event:
                 plan.on_event(kind, oid, False)
+            if plan.enoent:
+                raise FileNotFoundError(errno.ENOENT, "injected upload failure", to_info)
             raise OSError(errno.EIO, "injected upload failure", to_info)
         return oid
 
